@@ -5,6 +5,17 @@ use ommx::v1::{self, decision_variable::Kind, Equality, Instance};
 use std::collections::{BTreeSet, HashMap};
 
 macro_rules! fail { ($n:expr, $d:expr, $($a:tt)*) => { return Outcome { cases: $n, distinct: $d.len(), fail: Some(format!($($a)*)) } } }
+/// Coefficient of the degree-one monomial x_id as stored in the message (sum over repeated entries; 0 when absent).
+fn lin_coeff(f: &v1::Function, id: u64) -> f64 {
+    use v1::function::Function as F;
+    let lin = |l: &v1::Linear| l.terms.iter().filter(|t| t.id == id).map(|t| t.coefficient).sum::<f64>();
+    match &f.function {
+        Some(F::Linear(l)) => lin(l),
+        Some(F::Quadratic(q)) => q.linear.as_ref().map(|l| lin(l)).unwrap_or(0.0),
+        Some(F::Polynomial(p)) => p.terms.iter().filter(|m| m.ids == vec![id]).map(|m| m.coefficient).sum::<f64>(),
+        _ => 0.0,
+    }
+}
 fn close(a: f64, b: f64) -> bool { (a - b).abs() <= 1e-9 * (1.0 + a.abs().max(b.abs())) }
 
 // ------------------------------------------------------------------ C17
@@ -282,6 +293,11 @@ fn check_qp(q: &Qp, i: &Instance) -> Result<(), String> {
     let b0: Vec<f64> = (0..q.nvars).map(|j| q.b0.iter().find(|(k, _)| *k == j).map(|(_, v)| *v).unwrap_or(q.b0_default)).collect();
     let obj = i.objective.as_ref().ok_or("objective missing")?;
     for x in &pts { let want = quadv(&q.q0, x) + (0..3).map(|j| b0[j] * x[j]).sum::<f64>() + q.q0c; let got = val(obj, x); if !close(got, want) { return Err(format!("objective at {x:?} is {got}, expected 1/2 x'Q0x + b0'x + q0 = {want} (Q0 lower triangle {:?}, b0 {b0:?}, q0 {})", q.q0, q.q0c)); } }
+    // the linear part term by term (a tiny but non-zero default is still a coefficient: the point values above cannot see it)
+    for j in 0..q.nvars {
+        let got = lin_coeff(obj, j as u64);
+        if !(got == b0[j] || (got - b0[j]).abs() <= 1e-9 * b0[j].abs()) { return Err(format!("objective: coefficient of x{j} is {got:e}, expected b0[{j}] = {:e} (default b0 {:e}, listed {:?})", b0[j], q.b0_default, q.b0)); }
+    }
     let mut expected: Vec<Vec<f64>> = vec![];
     for m in 0..q.cl.len() {
         let qm: Vec<(usize, usize, f64)> = q.qi.iter().filter(|e| e.0 == m).map(|e| (e.1, e.2, e.3)).collect();
@@ -406,7 +422,7 @@ fn rand_qp(r: &mut Rng) -> Qp {
     let types: Vec<u8> = (0..nv).map(|_| if v == 'M' { r.pick(&[0u8, 2]) } else { r.pick(&[0u8, 1, 2]) }).collect();
     // a declared binary (type 2) carries the bounds of the file; keep them inside [0,1] so the model is well-formed
     let (lb, ub): (Vec<f64>, Vec<f64>) = (0..nv).map(|k| if (v == 'M' || v == 'G') && types[k] == 2 { (0.0, 1.0) } else { (lb[k], ub[k]) }).unzip();
-    Qp { o, v, c, maximize: r.chance(1, 2), nvars: nv, q0, b0_default: r.pick(&[0.0, 0.0, 1.5, -1.0]), b0, q0c: r.pick(&[0.0, 3.0, -1.5]), qi, bi, inf, cl, cu, lb, ub, types, names: if r.chance(1, 2) { vec![(r.below(nv), "alpha")] } else { vec![] } }
+    Qp { o, v, c, maximize: r.chance(1, 2), nvars: nv, q0, b0_default: r.pick(&[0.0, 0.0, 1.5, -1.0, 1.0e-18]), b0, q0c: r.pick(&[0.0, 3.0, -1.5]), qi, bi, inf, cl, cu, lb, ub, types, names: if r.chance(1, 2) { vec![(r.below(nv), "alpha")] } else { vec![] } }
 }
 
 pub fn c19b() -> Outcome {
